@@ -133,6 +133,31 @@ func (g *generator) generate(allowBacktracking bool) (dfa []int, backtrack []Che
 		}
 	}
 
+	// A cycle of end-of-input transitions (e.g. /x{eoi}+/) would make the scanner loop forever at the end of the
+	// input. Note: a rule may still continue after {eoi} as long as it cannot come back.
+	for _, state := range g.states {
+		cur := state
+		for steps := 0; cur.action[EOI] >= 0; steps++ {
+			if steps > len(g.states) {
+				origin := status.SourceRange{}
+				for _, i := range cur.set {
+					if t := &g.ins[i].trace; t.pattern != nil {
+						for t.caller != nil {
+							t = t.caller
+						}
+						if t.pattern.Origin != nil {
+							origin = t.pattern.Origin.SourceRange()
+						}
+						break
+					}
+				}
+				g.s.Add(origin, "the lexer can loop forever at the end-of-input: {eoi} must not be repeated")
+				return nil, nil, g.s.Err()
+			}
+			cur = g.states[cur.action[EOI]]
+		}
+	}
+
 	// Adding backtracking states.
 	type checkpointKey struct {
 		targetState int
